@@ -284,6 +284,27 @@ func (s RetSite) Pos() token.Pos {
 	return ssau.PosOf(s.Ret)
 }
 
+// Unspill resolves a returned value that travels through a result slot: in a
+// function with defers `return x` becomes `*slot = x; rundefers; t = *slot;
+// return t` inside one block. It returns x.
+func Unspill(r *ssa.Return, v ssa.Value) ssa.Value {
+	ld, ok := v.(*ssa.UnOp)
+	if !ok || ld.Op != token.MUL {
+		return v
+	}
+	slot, ok := ld.X.(*ssa.Alloc)
+	if !ok {
+		return v
+	}
+	b := r.Block()
+	for i := len(b.Instrs) - 1; i >= 0; i-- {
+		if s, ok := b.Instrs[i].(*ssa.Store); ok && s.Addr == ssa.Value(slot) {
+			return s.Val
+		}
+	}
+	return v
+}
+
 // ReturnSites expands result #idx of every Return of fn.
 func ReturnSites(fn *ssa.Function, idx int) []RetSite {
 	var out []RetSite
@@ -295,7 +316,7 @@ func ReturnSites(fn *ssa.Function, idx int) []RetSite {
 		if !ok || idx >= len(r.Results) {
 			continue
 		}
-		v := r.Results[idx]
+		v := Unspill(r, r.Results[idx])
 		if phi, ok := v.(*ssa.Phi); ok && phi.Block() == b {
 			for k, e := range phi.Edges {
 				pred := b.Preds[k]
